@@ -165,6 +165,7 @@ package bridgesync
 //@   ensures cbCalls == old(cbCalls) + 1 && lastCbFound == (result0 && result1 == nil)
 //@ func findCall
 //@   props C20
+//@   nilcalls
 //@   requires logger != nil
 //@   modifies region("bridgesync.Claim.ProofLocalExitRoot"), region("bridgesync.Claim.ProofRollupExitRoot"), region("bridgesync.Claim.MainnetExitRoot"), region("bridgesync.Claim.RollupExitRoot"), region("bridgesync.Claim.DestinationNetwork"), region("bridgesync.Claim.Metadata"), region("bridgesync.Claim.GlobalExitRoot"), region("bridgesync.Claim.FromAddress"), region("bridgesync.Claim.IsMessage"), lastCbFound, cbCalls
 //@   ensures[with-a-callback-only-a-call-it-accepted-is-returned] (callback != nil && result1 == nil) ==> cbCalls > old(cbCalls) && lastCbFound
